@@ -7,4 +7,5 @@ for P in "$@"; do
   ./verif.py check $P --tier quick 2>/dev/null | grep -E "^(VIOLATION|OK|KNOWN|BUILD|HARNESS)" | sed "s/^/[$NAME] $P: /"
 done
 git -C /repo checkout -- .
+git -C /verif checkout -- evidence
 git -C /repo status --short | grep -v '^??' | head -3
